@@ -227,3 +227,39 @@ pub fn closure_narrow<const B: usize>(nd: &mut Nd) {
     canon!("C04.closure.saturating_mul", a.saturating_mul(b));
     canon!("C04.closure.overflowing_mul", a.overflowing_mul(b).0);
 }
+
+/// decoder-side producers: whatever a parser / digit decoder / slice decoder accepts is canonical (no value oracle here;
+/// the values are decided in C07/C08/C09).  Digit strings of symbolic length 0..=3 in a base chosen from
+/// {3, 10, 1000, 2^32}, ASCII strings of symbolic length 0..=3 in radix 10 or 36, byte slices of symbolic length 0..=BYTES+1.
+pub fn closure_decoders<const B: usize, const L: usize, const NB1: usize>(nd: &mut Nd) {
+    let d = [nd.u64(), nd.u64(), nd.u64()];
+    let n = nd.upto(3);
+    let base: u64 = match nd.u8() & 3 {
+        0 => 3,
+        1 => 10,
+        2 => 1000,
+        _ => 1 << 32,
+    };
+    let s = [nd.u8() & 0x7f, nd.u8() & 0x7f, nd.u8() & 0x7f];
+    let radix: u64 = if nd.bool() { 10 } else { 36 };
+    let bytes: [u8; NB1] = nd.bytes();
+    let blen = nd.upto(NB1);
+    macro_rules! canon {
+        ($label:literal, $e:expr) => {{
+            let r: Option<Uint<B, L>> = $e;
+            if let Some(r) = r {
+                chk!(nd, $label, refm::canonical(r.as_limbs(), B));
+            }
+        }};
+    }
+    cov!(nd, "accepts-digits", n == 3 && Uint::<B, L>::from_base_be(base, d[..n].iter().copied()).is_ok());
+    cov!(nd, "accepts-bytes", blen == NB1 - 1 && Uint::<B, L>::try_from_be_slice(&bytes[..blen]).is_some());
+    canon!("C04.closure.from_base_be", Uint::<B, L>::from_base_be(base, d[..n].iter().copied()).ok());
+    canon!("C04.closure.from_base_le", Uint::<B, L>::from_base_le(base, d[..n].iter().copied()).ok());
+    if let Ok(txt) = core::str::from_utf8(&s[..n]) {
+        canon!("C04.closure.from_str_radix", Uint::<B, L>::from_str_radix(txt, radix).ok());
+    }
+    canon!("C04.closure.try_from_be_slice", Uint::<B, L>::try_from_be_slice(&bytes[..blen]));
+    canon!("C04.closure.try_from_le_slice", Uint::<B, L>::try_from_le_slice(&bytes[..blen]));
+    canon!("C04.closure.checked_from_limbs_slice", Uint::<B, L>::checked_from_limbs_slice(&d[..2]));
+}
